@@ -362,6 +362,15 @@ func c23Stream(rng *rand.Rand, n int, tier string, out string) (*Summary, error)
 		r = &gpb.SetRequest{Delete: []*gpb.Path{c22MustPath("/top/nest/b")}}
 		ns = []*gpb.Notification{{Update: []*gpb.Update{c22Upd("/top/nest/b", &gpb.TypedValue{Value: &gpb.TypedValue_IntVal{IntVal: 3}})}}}
 		run.one("single-edit/add/at-deleted-path", r, ns, "/top/nest/b", pkgs[0], false, nil)
+		// an empty leaf-list: [] in the request's JSON, a leaflist_val without elements in the
+		// notifications (ygot itself no longer emits one, other gNMI targets do)
+		emptyLL := &gpb.TypedValue{Value: &gpb.TypedValue_LeaflistVal{LeaflistVal: &gpb.ScalarArray{}}}
+		r = &gpb.SetRequest{Update: []*gpb.Update{c22Upd("/top/lls", c22JS(`{"ll-str":[],"ll-u8":[3]}`))}}
+		ns = []*gpb.Notification{{Update: []*gpb.Update{c22Upd("/top/lls/ll-str", emptyLL), c22Upd("/top/lls/ll-u8", &gpb.TypedValue{Value: &gpb.TypedValue_LeaflistVal{LeaflistVal: &gpb.ScalarArray{Element: []*gpb.TypedValue{c22Uint(3)}}}})}}}
+		run.one("exact", r, ns, "", nil, false, nil)
+		r = &gpb.SetRequest{Update: []*gpb.Update{c22Upd("/top/lls/ll-str", emptyLL)}}
+		ns = []*gpb.Notification{{Update: []*gpb.Update{c22Upd("/top/lls/ll-str", emptyLL)}}}
+		run.one("exact", r, ns, "", nil, false, nil)
 	}
 
 	for run.id < n {
